@@ -144,9 +144,11 @@ def predict(ctx, cases, cands):
 
 def native_line(ctx, c):
     toks, local_call = c16.native_args(ctx, c)
+    # key material: exactly the documented bytes, ending flush against a PROT_NONE page, so that
+    # a comparison reading past the documented key size faults
     for i, b in c.bufs.items():
-        if toks[i] != "n":
-            toks[i] = "b:" + b.hex()
+        if toks[i] != "n" and len(b):
+            toks[i] = "e:" + b.hex()
     if c.mode == "r":
         toks = [("v" if t == "g" else t) for t in toks]
     c.stubret = 0 if any(e.startswith("W:") for e in c.pred.get("events", [])) or c.entry.endswith(("_submit", "_flush")) else 7
@@ -157,9 +159,87 @@ def native_line(ctx, c):
 
 def describe(c):
     d = c16.describe(c)
-    d.update({"status": {0: "passed", 1: "failed", 2: "not run", 3: "not run (value 3)", None: "untouched"}[c.status],
-              "aes_self_tests_returns": c.aes, "sha_self_tests_returns": c.sha, "keys": c.why})
+    d.update({"status": {0: "passed", 1: "failed", 2: "not run", None: "untouched"}.get(c.status, "not run (value %s)" % c.status),
+              "status_value": c.status, "aes_self_tests_returns": c.aes, "sha_self_tests_returns": c.sha, "keys": c.why,
+              "key_bytes": {str(i): b.hex() for i, b in c.bufs.items()}, "mode_code": c.mode})
     return d
+
+
+def solve_memcmp(atoms, rng):
+    """bytes for pointer arguments such that every memcmp observation M(Ai,oi,Aj,oj,n) has the
+    value the counterexample assigns (0: the slices are equal, else: they differ).
+    atoms: {(i, oi, j, oj, n): value}.  -> {arg: bytes} or None when not realisable this way."""
+    size = {}
+    for (i, oi, j, oj, n), v in atoms.items():
+        size[i] = max(size.get(i, 0), oi + n)
+        size[j] = max(size.get(j, 0), oj + n)
+    if not size or max(size.values()) > 4096:
+        return None
+    buf = {a: bytearray(rng.bytes(sz)) for a, sz in size.items()}
+    # start from buffers that differ at every position of every compared pair
+    for (i, oi, j, oj, n), v in atoms.items():
+        for t in range(n):
+            if buf[i][oi + t] == buf[j][oj + t]:
+                buf[j][oj + t] ^= 0x5a
+    pinned = {a: set() for a in size}
+    for _ in range(3):
+        for (i, oi, j, oj, n), v in atoms.items():
+            if v == 0:
+                buf[j][oj:oj + n] = buf[i][oi:oi + n]
+                pinned[j].update(range(oj, oj + n))
+                pinned[i].update(range(oi, oi + n))
+    for (i, oi, j, oj, n), v in atoms.items():
+        if v != 0 and buf[i][oi:oi + n] == buf[j][oj:oj + n]:
+            free = [t for t in range(n) if (oj + t) not in pinned[j]] or [t for t in range(n) if (oi + t) not in pinned[i]]
+            if not free:
+                return None
+            t = free[-1]
+            if (oj + t) not in pinned[j]:
+                buf[j][oj + t] ^= 0xff
+            else:
+                buf[i][oi + t] ^= 0xff
+    for (i, oi, j, oj, n), v in atoms.items():
+        if (buf[i][oi:oi + n] == buf[j][oj:oj + n]) != (v == 0):
+            return None
+    return {a: bytes(b) for a, b in buf.items()}
+
+
+def cex_case(ctx, eid, line, rng):
+    """the counterexample world of a failing check13 obligation as a native case: arguments, status,
+    self-test outcomes and key bytes realising every memcmp observation of the assignment"""
+    name = ctx.byid[eid]
+    params = ctx.params(name)
+    asg = dict(t.split("=", 1) for t in line.split() if "=" in t and not t.startswith("unsupported"))
+    args = []
+    for i, p in enumerate(params):
+        v = int(asg.get("A%d" % i, "0"), 16)
+        args.append(("n" if v == 0 else "g") if p[1] == "CPtr" else v)
+    st = int(asg.get("S", "0"), 16)
+    aes = int(asg.get("X%d.0" % ctx.names["_aes_self_tests"], "0"), 16)
+    sha = int(asg.get("X%d.0" % ctx.names["_sha_self_tests"], "0"), 16)
+    atoms = {}
+    for k, v in asg.items():
+        mk = wc.key_memcmp(k)
+        if mk:
+            atoms[mk] = int(v, 16)
+    bufs = solve_memcmp(atoms, rng) if atoms else {}
+    if bufs is None:
+        return None
+    if st == 3:
+        return None          # RUNNING: asm_check_self_tests_status would wait for another thread (C17)
+    c = Case("%d.cex" % eid, name, eid, args, "s", st, aes if st not in (0, 1) else None, sha if st not in (0, 1) else None, bufs)
+    c.why = "counterexample of check13"
+    return c
+
+
+def case_from_replay(ctx, r):
+    eid = ctx.names[r["entry"]]
+    args = [("n" if a == "NULL" else ("g" if a == "ptr" else int(a, 16))) for a in r["args"]]
+    bufs = {int(i): bytes.fromhex(h) for i, h in r.get("key_bytes", {}).items()}
+    c = Case("%d.replay" % eid, r["entry"], eid, args, r.get("mode_code", "s"), r.get("status_value"),
+             r.get("aes_self_tests_returns"), r.get("sha_self_tests_returns"), bufs)
+    c.why = r.get("keys", "replay")
+    return c
 
 
 def run(tier, replay=None):
@@ -189,11 +269,13 @@ def run(tier, replay=None):
     if replay and "args" not in json.load(open(replay))["replay"]:
         replay = None          # a replay that names a theorem / correspondence: run everything
     if replay:
-        r = json.load(open(replay))["replay"]
-        keep = [c for c in cases if c.entry == r["entry"] and describe(c)["status"] == r["status"] and
-                describe(c)["args"] == r["args"] and c.why == r.get("keys", c.why) and
-                c.aes == r.get("aes_self_tests_returns") and c.sha == r.get("sha_self_tests_returns")]
-        cases = keep[:1] if keep else [c for c in cases if c.entry == r["entry"]][:50]
+        cases = [case_from_replay(ctx, json.load(open(replay))["replay"])]
+    else:
+        # the counterexample world of every failing obligation is run natively as it stands
+        for e, line in failing.items():
+            cc = cex_case(ctx, e, line, rng)
+            if cc is not None:
+                cases.append(cc)
     predict(ctx, cases, cands)
     # real kernels behind a failed gate: outputs must stay untouched
     extra = []
@@ -230,7 +312,7 @@ def run(tier, replay=None):
             ret = c.nat.get("ret", "?")
             if c.nat.get("fault") == "1":
                 kind = "fault"
-            elif "identical" in c.why:
+            elif "identical" in c.why or c.pred.get("spec", "0")[-1:] == "1":
                 kind = "identical_keys_not_refused"
             elif c.status == 1:
                 kind = "failed_status_not_blocking"
